@@ -17,6 +17,7 @@ from . import core, gencheck
 
 MEM_RE = re.compile(r'^(ok|err|panic|hang) LIVE (-?\d+) PEAK (\d+) REFS (\d+)$')
 ALLOC_RE = re.compile(r'^(ok|err|panic)(?: \w+)? ALLOC (-?\d+) CLASS (0|1)(?: A (\d+) B (\d+))?$')
+MAX_MODEL_CASES = 120000   # per run (the quick tier has about 46 000)
 MAX_MODEL_INPUT = 20000      # bytes: beyond that the extracted model (inductive naturals, lists of bytes) is too slow
 
 
@@ -42,6 +43,12 @@ class Tie:
                 self.stats['skipped_long'] += 1
                 continue
             sel.append(i)
+        # the extracted model is slow (inductive naturals, lists of bytes): at most MAX_MODEL_CASES cases are put to it, drawn
+        # deterministically from the run's cases; the measured peak of EVERY case is still judged by the oracle
+        self.stats['eligible'] = len(sel)
+        if len(sel) > MAX_MODEL_CASES:
+            import random
+            sel = sorted(random.Random(len(sel)).sample(sel, MAX_MODEL_CASES))
         lines = ['alloc ' + cases[i]['line'].split(' ', 1)[1] for i in sel]
         mouts = core.run_lines(runner, lines, args=[os.path.join(gb.out_dir, 'schema.txt')])
         bad = []
